@@ -391,7 +391,9 @@ impl Decoder {
                 }
             }
         } else if level == 5 || level == 6 {
+            // 48 bytes; writers (Acrobat among them) pad the string with zero bytes up to 127
             let u = dict.u.as_bytes();
+            let u = u.get(.. 48).unwrap_or(u);
             if u.len() != 48 {
                 err!(format!(
                     "U in Encrypt dictionary should have a length of 48 bytes, not {}",
@@ -404,6 +406,7 @@ impl Decoder {
             let user_key_salt = &u[40..48];
 
             let o = dict.o.as_bytes();
+            let o = o.get(.. 48).unwrap_or(o);
             if o.len() != 48 {
                 err!(format!(
                     "O in Encrypt dictionary should have a length of 48 bytes, not {}",
